@@ -85,6 +85,30 @@ EPS = {'float64': 2.0**-52, 'float32': 2.0**-23, 'int64': 2.0**-52}
 FLOOR = {'float64': 1e-250, 'float32': 1e-25, 'int64': 1e-250}
 
 
+# per-element incident beams with mixed tilts in one array (positive = pointing upwards, against gravity); assigned
+# cyclically to the elements of the incident-beam array.  The dispatch / refusal must look at every element:
+# "horizontal + up" has max(g.b1) = 0, "horizontal + down" has min(g.b1) = 0, "below + up" hides the tilt behind a
+# sub-threshold element of the other sign.
+TILT_PATTERNS = [
+    ('all horizontal', [{'s': 0.0}, {'s': 0.0}, {'s': 0.0}]),
+    ('horizontal + up', [{'s': 0.0}, {'s': 1e-6}, {'s': 1e-3}]),
+    ('horizontal + down', [{'s': 0.0}, {'s': -1e-6}, {'s': -1e-3}]),
+    ('up + down', [{'s': 1e-3}, {'s': -1e-6}, {'tau': 0.3}]),
+    ('all below threshold, both signs', [{'s': 0.9e-10}, {'s': -0.9e-10}, {'s': 1e-12}]),
+    ('below threshold (down) + strongly up', [{'s': -0.9e-10}, {'s': 0.9e-10}, {'tau': 0.3}]),
+    ('below threshold (up) + strongly down', [{'s': 0.9e-10}, {'tau': -1.0}, {'s': 0.0}]),
+    ('up + horizontal last', [{'tau': 0.2}, {'s': 1e-6}, {'s': 0.0}]),
+    ('just above threshold (up) + horizontal', [{'s': 1.1e-10}, {'s': 0.0}, {'s': 0.0}]),
+    ('just above threshold (down) + horizontal', [{'s': -1.1e-10}, {'s': 0.0}, {'s': 0.0}]),
+    ('all up', [{'s': 1e-9}, {'s': 1e-6}, {'tau': 1.0}]),
+    ('all down', [{'s': -1e-9}, {'s': -1e-6}, {'tau': -0.3}]),
+]
+# incident_beam: one per detector pixel / one per event (the wavelength dimension) / one per (pixel, event), stored either way
+INCIDENT_LAYOUTS = ('det', 'event', 'both', 'both_transposed')
+TILTMIX_DETS = (0, 3, 6, 10, 13)
+TILTMIX_LAMS = (2, 3, 4)  # indices into LAMBDAS: 1.8, 6, 20 angstrom
+
+
 def _tilts(deep=False):
     out = [{'s': 0.0}]
     for s in (S_TILTS_DEEP if deep else S_TILTS)[1:]:
@@ -105,6 +129,11 @@ def cases(tier):
                                     'gu': 'm/s^2' if (gi + frame) % 2 == 0 else 'mm/s^2', 'L2': L2S[(frame + gi) % 3]})
         for frame in range(3):
             out.append({'kind': 'mixed', 'frame': frame, 'L': 1.0, 'u1': 'm', 'u2': 'm', 'g': 9.81, 'gu': 'm/s^2', 'L2': 5.0})
+        for frame in range(3):
+            for L, u1 in ((1.0, 'm'), (10.0, 'mm')):
+                for pat in range(len(TILT_PATTERNS)):
+                    for layout in INCIDENT_LAYOUTS:
+                        out.append({'kind': 'tiltmix', 'frame': frame, 'L': L, 'u1': u1, 'u2': 'm', 'g': 9.81, 'gu': 'm/s^2', 'L2': 5.0, 'pattern': pat, 'layout': layout})
         return out
     for frame in range(3):
         for L in (1.0, 10.0):
@@ -120,6 +149,14 @@ def cases(tier):
             for g in (9.81, 1e-30):
                 for L2 in L2S:
                     out.append({'kind': 'mixed', 'deep': True, 'frame': frame, 'L': 1.0, 'u1': u1, 'u2': 'm', 'g': g, 'gu': 'm/s^2', 'L2': L2})
+    for frame in range(3):
+        for L, u1 in ((1.0, 'm'), (10.0, 'mm'), (10.0, 'm')):
+            for u2 in ('m', 'mm'):
+                for g, gu in ((9.81, 'm/s^2'), (100.0, 'mm/s^2'), (1e-30, 'm/s^2')):
+                    for L2 in L2S:
+                        for pat in range(len(TILT_PATTERNS)):
+                            for layout in INCIDENT_LAYOUTS:
+                                out.append({'kind': 'tiltmix', 'frame': frame, 'L': L, 'u1': u1, 'u2': u2, 'g': g, 'gu': gu, 'L2': L2, 'pattern': pat, 'layout': layout})
     return out
 
 
@@ -292,6 +329,8 @@ def run_case(case, rec):
     LAMBDAS, DETS = (LAMBDAS_DEEP, DETS_DEEP) if case.get('deep') else (LAMBDAS_QUICK, DETS_QUICK)
     if case['kind'] == 'mixed':
         return _run_mixed(case, rec)
+    if case['kind'] == 'tiltmix':
+        return _run_tiltmix(case, rec)
     frame, L, u1, u2, L2 = case['frame'], case['L'], case['u1'], case['u2'], case['L2']
     rec.cls(('frame_lab', 'frame_cube', 'frame_generic')[frame])
     b1 = _to_frame(frame, _incident(L, case['tilt']))
@@ -461,6 +500,122 @@ def _run_mixed(case, rec):
     W.emit(rec)
 
 
+def _run_tiltmix(case, rec):
+    """Arrays of incident beams whose elements mix horizontal, slightly and strongly tilted beams of either sign.
+
+    Oracle: the documented construction per element (ref/gravity), the path every element must take (generic as soon as ANY
+    element is clearly tilted), the element-wise 0-d calls, and for the reflectometry variant: refuse iff any 0-d call refuses.
+    """
+    frame, L, u1, u2, L2 = case['frame'], case['L'], case['u1'], case['u2'], case['L2']
+    name, pattern = TILT_PATTERNS[case['pattern']]
+    layout = case['layout']
+    rec.cls(('frame_lab', 'frame_cube', 'frame_generic')[frame])
+    rec.cls('tiltmix_layout_' + layout)
+    dets, lams = list(TILTMIX_DETS), list(TILTMIX_LAMS)
+    b2s = {k: _to_frame(frame, [c * L2 * LEN_F[u2] for c in DETS[k]]) for k in dets}
+    gvec = _to_frame(frame, (0.0, -case['g'], 0.0))
+    g_si = [hp.mpf(x) * hp.F(gr.ACCEL[case['gu']]) for x in gvec]
+
+    def tilt_of(pi, pk):  # position of the event / the detector in the arrays
+        if layout == 'det':
+            n = pk
+        elif layout == 'event':
+            n = pi
+        else:
+            n = pk * len(lams) + pi + pk  # every row starts at another phase of the pattern
+        return pattern[n % len(pattern)]
+
+    b1 = {(i, k): _to_frame(frame, _incident(L, tilt_of(pi, pk))) for pi, i in enumerate(lams) for pk, k in enumerate(dets)}
+    refs = {key: gr.angles(_si(b1[key], u1), _si(b2s[key[1]], u2), hp.mpf(LAMBDAS[key[0]]) * hp.ANGSTROM, g_si) for key in b1}
+    path = _path(refs, u1, rec)
+    if path is None:
+        return
+    rec.cls('tiltmix_' + path + '_path')
+    f1 = hp.F(hp.LENGTH[u1])
+    above = {key: abs(r['g_dot_b1_over_g']) / f1 > hp.mpf('1.05e-10') for key, r in refs.items()}
+    if any(above.values()) and not all(above.values()):
+        rec.cls('tiltmix_some_elements_above_some_below')
+    signs = {(-1 if r['g_dot_b1_over_g'] < 0 else 1) for key, r in refs.items() if above[key]}
+    if len(signs) == 1 and not all(above.values()):
+        rec.cls('tiltmix_one_sided_tilts_with_horizontal' + ('_up' if signs == {-1} else '_down'))
+    for r in refs.values():
+        rec.states += 1
+        if abs(r['two_theta'] - r['two_theta_free']) > 1e-9:
+            rec.nontrivial += 1
+
+    if layout == 'det':
+        b1v = gc.vecs([b1[(lams[0], k)] for k in dets], u1, dim='det')
+    elif layout == 'event':
+        b1v = gc.vecs([b1[(i, dets[0])] for i in lams], u1, dim='wavelength')
+    else:
+        grid = np.asarray([[b1[(i, k)] for i in lams] for k in dets], dtype=float)  # (det, wavelength, 3)
+        b1v = sc.vectors(dims=['det', 'wavelength'], values=grid, unit=u1)
+        if layout == 'both_transposed':
+            b1v = b1v.transpose(['wavelength', 'det']).copy()
+    b2v = gc.vecs([b2s[k] for k in dets], u2, dim='det')
+    lamv = sc.array(dims=['wavelength'], values=[LAMBDAS[i] for i in lams], unit='angstrom')
+    gv = gc.vec(gvec, case['gu'])
+    W = Worst()
+    case_sub = {'pattern': name, 'incident_layout': layout, 'gravity': gvec}
+
+    def table(var):
+        vals = var.transpose(['wavelength', 'det']).values
+        return {(i, k): float(vals[pi][pk]) for pi, i in enumerate(lams) for pk, k in enumerate(dets)}
+
+    tt, ph = _call_angles(b1v, b2v, lamv, gv)
+    rec.transitions += 2
+    _check_units(rec, tt, ph)
+    got_tt, got_phi = table(tt), table(ph)
+    _judge_angles(rec, W, got_tt, got_phi, refs, path, 'float64', 'tiltmix_' + layout, case_sub)
+
+    # element-wise 0-d calls
+    yz_scalar, any_refused = {}, False
+    for (i, k), b in b1.items():
+        bv, b2k, lam0 = gc.vec(b, u1), gc.vec(b2s[k], u2), sc.scalar(LAMBDAS[i], unit='angstrom')
+        t0, p0 = _call_angles(bv, b2k, lam0, gv)
+        rec.transitions += 2
+        rec.evals += 1
+        r = refs[(i, k)]
+        own_orthogonal = abs(r['g_dot_b1_over_g']) / f1 < hp.mpf('0.95e-10')
+        tol = 2e-12 + (1.01 * float(r['tilt']) if own_orthogonal else 0.0)
+        d = abs(got_tt[(i, k)] - float(t0.value))
+        if d > tol:
+            W.add(SITE, 'array_differs_from_elementwise_call', d / tol,
+                  f'incident_beam array ({name}, layout {layout}): 2theta element {got_tt[(i, k)]!r} but the 0-d call for that element gives {float(t0.value)!r}',
+                  lam=LAMBDAS[i], det=k, **case_sub)
+        try:
+            yz_scalar[(i, k)] = float(bl.scattering_angle_in_yz_plane(incident_beam=bv, scattered_beam=b2k, wavelength=lam0, gravity=gv).value)
+        except ValueError:
+            any_refused = True
+    # reflectometry variant on the array: refuses iff any element is refused
+    rec.evals += 1
+    try:
+        yz = bl.scattering_angle_in_yz_plane(incident_beam=b1v, scattered_beam=b2v, wavelength=lamv, gravity=gv)
+        raised = False
+    except ValueError:
+        raised = True
+    rec.transitions += 1
+    expect_refusal = path == 'generic'
+    if any_refused != expect_refusal:
+        W.add(SITE_YZ, 'elementwise_refusal_vs_threshold', 1.0, f'0-d calls refused={any_refused} but 50-digit |g.b1|/|g| says {expect_refusal}', **case_sub)
+    if expect_refusal and not raised:
+        W.add(SITE_YZ, 'accepts_non_perpendicular_beam', 1.0,
+              f'incident_beam array ({name}, layout {layout}) contains beams that are not perpendicular to gravity (the 0-d call refuses them) but the array call returns', **case_sub)
+    elif not expect_refusal and raised:
+        W.add(SITE_YZ, 'refuses_perpendicular_beam', 1.0, f'incident_beam array ({name}, layout {layout}): every element is within 1e-10 of perpendicular but the array call raises', **case_sub)
+    elif raised:
+        rec.cls('tiltmix_yz_refused')
+    else:
+        rec.cls('tiltmix_yz_accepted')
+        got_yz = table(yz)
+        _judge_yz(rec, W, got_yz, refs, 'float64', 'tiltmix_' + layout, case_sub)
+        for key, v in yz_scalar.items():
+            if abs(got_yz[key] - v) > 2e-12:
+                W.add(SITE_YZ, 'array_differs_from_elementwise_call', abs(got_yz[key] - v) / 2e-12,
+                      f'gamma element {got_yz[key]!r} but the 0-d call gives {v!r}', lam=LAMBDAS[key[0]], det=key[1], **case_sub)
+    W.emit(rec)
+
+
 # ---------------------------------------------------------------------------------------
 # layout / reuse exploration shared by the kernel properties (props/layouts.py): every combination of operand layouts
 # (0-d, 1-d over either of two dims, 2-d, 2-d transposed) must equal the element-wise 0-d calls, also after every operand
@@ -487,4 +642,14 @@ def run_case(case, rec):
 
 RULE = RULE + (' Thorough tier: 23 tilts, 20 detector directions, 9 wavelengths (see BOUND) and int64 wavelengths at the integer-valued '
                'wavelengths {0, 1, 6, 20, 50, 100} angstrom.')
-REQUIRED_CLASSES = {'quick': list(REQUIRED_CLASSES), 'thorough': [*REQUIRED_CLASSES, 'dtype_int64']}
+_TILTMIX_CLASSES = [
+    'tiltmix_layout_det', 'tiltmix_layout_event', 'tiltmix_layout_both', 'tiltmix_layout_both_transposed', 'tiltmix_generic_path',
+    'tiltmix_orthogonal_path', 'tiltmix_some_elements_above_some_below', 'tiltmix_one_sided_tilts_with_horizontal_up',
+    'tiltmix_one_sided_tilts_with_horizontal_down', 'tiltmix_yz_refused', 'tiltmix_yz_accepted',
+]
+RULE = RULE + (' Tilt-mix cases: incident_beam arrays (per pixel / per event / per pixel and event, either storage order) whose elements follow '
+               'each of %d tilt patterns (all horizontal, horizontal + up, horizontal + down, up + down, sub-threshold of either sign with '
+               'and without a strongly tilted element, just above threshold + horizontal, all up, all down) x frame x (|b1|, unit); oracle per '
+               'element = documented construction + the element-wise 0-d call; the reflectometry variant must refuse iff a 0-d call refuses.'
+               % len(TILT_PATTERNS))
+REQUIRED_CLASSES = {'quick': [*REQUIRED_CLASSES, *_TILTMIX_CLASSES], 'thorough': [*REQUIRED_CLASSES, 'dtype_int64', *_TILTMIX_CLASSES]}
